@@ -270,6 +270,13 @@ class Models:
             if cb >= 0:
                 if cb & (cb + 1) == 0:  # 2^k - 1
                     return mk_int(a % (cb + 1))
+                # a mask that keeps most bits of a bounded operand: a & m == a - (a & ~m) with few complement bits
+                for W in (8, 16, 32, 64):
+                    if cb < (1 << W) and bin(((1 << W) - 1) & ~cb).count("1") < bin(cb).count("1") \
+                            and self.st.must(z3.And(a >= 0, a < (1 << W))):
+                        comp = ((1 << W) - 1) & ~cb
+                        terms = [((a / (1 << i)) % 2) * (1 << i) for i in range(W) if comp >> i & 1]
+                        return mk_int(a - z3.Sum(terms)) if terms else mk_int(a)
                 # general non-negative mask: sum of selected bits
                 terms = []
                 i = 0
